@@ -76,6 +76,11 @@ def check(ctx):
         if f is None: continue
         rd = Call(re.escape(Q) + "::BlockNode::(get|copy_to_bulk)", transitive=False)
         ctx.guarded(fid, rd, variant_of_call(cas, "Ok"), fn + "/read-behind-claim", "%s reads a slot only after its CAS on head claimed it" % fn, pred_label="edge `head.compare_exchange_weak` is Ok")
+        # (seed C04-6) every field of the block is read behind the claim as well: `start` looks immutable, but a freed block can be
+        # re-allocated at the same address with another `start` while a taker is stalled between its loads and its CAS (ABA); a
+        # `pop_index` computed before the CAS describes the previous life of the block
+        ctx.guarded(fid, Call(A("load"), on=Q + "::BlockNode.start", transitive=False), variant_of_call(cas, "Ok"), fn + "/start-read-behind-claim",
+                    "%s reads block.start only after its CAS on head claimed the slots" % fn, pred_label="edge `head.compare_exchange_weak` is Ok")
         ctx.guarded(fid, rd, published, fn + "/read-behind-publish", "%s reads a slot only behind an observation that it is published (index < tail.index)" % fn,
                     pred_label="edge `pop_index < push_index` / wait-loop exit")
         # pairing
